@@ -32,6 +32,9 @@ CONFIGS = ["fs", "fs+4KiB", "fs+1MiB+meta"]
 def cases(tier, seed):
     if tier in ("thorough",):
         yield {"kind": "repo_tests"}
+    for i in range(40 if tier == "quick" else 1500):
+        # writers forked from one process that had already opened the store (pre-forked workers)
+        yield {"kind": "forked_writers", "seed": seed, "idx": i, "config": CONFIGS[i % 3]}
     n, length = (300, 25) if tier == "quick" else (10000, 40)
     for i in range(n):
         # every fourth history contains writes that a kernel-level file size limit cuts short (the caller sees an
@@ -54,7 +57,85 @@ def content_bytes(plain, memento):
         return f.read()
 
 
+_FW = {}
+
+
+def forked_writer(arg):
+    b, refs, vals = _FW["b"], _FW["refs"], _FW["vals"]
+    out = {}
+    for op in arg["ops"]:
+        got = storeops.apply_backend(b, refs, vals, op)
+        if isinstance(got, tuple) and got and got[0] == "raise":
+            return {"raise": [op, list(got[1:3])]}
+        out["%d,%d" % (op[1], op[2])] = op[3]
+    return out
+
+
+def run_forked_writers(case):
+    """One process opens the store, then forks writers (one after the other, no concurrency) that store results
+    under shared override keys and as content-addressed blobs; afterwards every memento must read what its own
+    writer stored."""
+    from vf import procs
+
+    out = {"viol": [], "nontrivial": [], "obs": collections.Counter(), "sets": {"content_hashes": set()}}
+    rng = core.rng_for(case["seed"], ID, "fw", case["idx"])
+    simple = ["s0", "s1", "num", "k3", "lst", "dct", "flt", "k3b", "true", "arr"]
+    with env.Scratch() as sc:
+        b = open_backend(sc, case["config"])
+        refs, vals = storeops.Refs("c"), storeops.values()
+        _FW.update(b=b, refs=refs, vals=vals)
+        pre = [["memoize", 2, 2, rng.choice(simple), rng.choice(storeops.OVERRIDES)] for _ in range(rng.randint(0, 2))]
+        for op in pre:
+            storeops.apply_backend(b, refs, vals, op)
+        n = rng.randint(1, 4)
+        written = {}
+        plans = []
+        for w in range(rng.randint(2, 3)):
+            plans.append([["memoize", rng.randrange(3), w, rng.choice(simple), rng.choice(storeops.OVERRIDES + ["ovr/shared"])]
+                          for _ in range(n)])
+        for w, ops in enumerate(plans):
+            try:
+                res = procs.in_child(forked_writer, {"ops": ops})
+            except procs.ChildFailed as e:
+                out["viol"].append({"sig": "harness: forked writer failed", "msg": str(e)[-600:]})
+                return finish(out)
+            if "raise" in res:
+                out["viol"].append({"sig": "storage operation raises " + res["raise"][1][0], "msg": "forked writer %d: %s" % (w, res["raise"])})
+                return finish(out)
+            written.update(res)
+            out["obs"]["forked_writers"] += 1
+        plain = open_backend(sc, case["config"], cache=False)
+        for key, vk in sorted(written.items()):
+            f, a = [int(x) for x in key.split(",")]
+            out["obs"]["live_mementos_rechecked"] += 1
+            out["obs"]["mementos_of_forked_writers_rechecked"] += 1
+            try:
+                m = plain.get_memento(refs.fwah(f, a))
+                value = plain.read_result(m)
+            except Exception as e:
+                out["viol"].append({"sig": "live memento became unreadable",
+                                    "msg": "forked writers %s: memento (%d, %d): %r" % (json.dumps(plans), f, a, e)})
+                continue
+            if not domain.eq(value, storeops.val(vals, vk)):
+                out["viol"].append({"sig": "live memento reads a different value",
+                                    "msg": "forked writers %s: memento (%d, %d) expected %s got %s (content key %s)" % (
+                                        json.dumps(plans), f, a, vk, domain.describe(value, 60), m.content_key)})
+        if any(op[4] for ops in plans for op in ops):
+            out["nontrivial"].append("fw:%d:%d" % (case["seed"], case["idx"]))
+        out["sample"] = {"config": case["config"], "forked_writers": plans}
+    return finish(out)
+
+
+def finish(out):
+    out["obs"] = dict(out["obs"])
+    out["sets"] = {k: sorted(v) for k, v in out["sets"].items()}
+    out["viol"] = out["viol"][:5]
+    return out
+
+
 def run_case(case):
+    if case.get("kind") == "forked_writers":
+        return run_forked_writers(case)
     if case.get("kind") == "repo_tests":
         from vf import repotests
 
@@ -219,6 +300,6 @@ def run_case(case):
 
 
 def conclude(agg):
-    return core.first(core.need(agg, "live_mementos_rechecked", 2000), core.need(agg, "writes_cut_short", 50),
+    return core.first(core.need(agg, "live_mementos_rechecked", 2000), core.need(agg, "writes_cut_short", 50), core.need(agg, "mementos_of_forked_writers_rechecked", 60),
                       core.need(agg, "content_keys_rehashed", 1000),
                       core.need(agg, "stored_objects_scanned", 1000)), {}
